@@ -101,6 +101,13 @@ def run(prop, tier, seed, replay=None):
     r, consts = mc_build(prop, tier, wd, seed)
     path, n, gen_states, runs = generate(tier, wd, seed)
     s = core.mt("replay-table", path, os.path.join(wd, "sum.json"), seed)
+    if prop == "C05":
+        # documented size limits: E = 1..12 (16) bundles / chains, and MAX_EDGES itself
+        sl = core.mt("size-limits", None, os.path.join(wd, "size.json"), seed, {"max_e": 12 if tier == "quick" else 16})
+        s["violations"] += sl["violations"]
+        s["evaluations"] += sl["evaluations"]
+        for k, v in sl["counters"].items():
+            s["counters"][k] = s["counters"].get(k, 0) + v if k.startswith("violations_") else v
     c = s["counters"]
     if c.get("accepted_by_spec", 0) < 50 or c.get("divergent", 0) < 50:
         raise core.ToolError("vacuity guard: accepted=%s divergent=%s" % (c.get("accepted_by_spec"), c.get("divergent")))
